@@ -366,7 +366,9 @@ async fn run(case: Json, tol: Tolerate) -> Outcome {
             } else {
                 idle = 0;
             }
-            tokio::time::sleep(Duration::from_millis(25)).await;
+            // (the speakers keep their sessions alive meanwhile: a transfer can take longer than the
+            // hold time, and a daemon that times silent neighbours out while it is writing is right)
+            t.advance(25).await;
         }
         if !t.nodes[0].spk.framing_errors.is_empty() || !t.nodes[0].spk.decode_errors.is_empty() {
             // what the DUT sends to the source is part of the claim as well
